@@ -13,7 +13,12 @@ pub fn gen(r: &mut Rng) -> Value {
     let body = c04::gen_block_ret(r, 0, &mut c, &mut budget, true);
     let ncalls = 1 + r.below(3);
     // output variables are drawn from a small pool, so they are reused across calls and may already be defined
-    let calls: Vec<Value> = (0..ncalls).map(|i| json!({"out": if r.chance(3, 4) { json!(format!("o{}", r.below(2))) } else { Value::Null }, "arg": format!("a{}", i)})).collect();
+    let calls: Vec<Value> = (0..ncalls).map(|i| {
+        // 1..3 arguments; some are written as an empty string or as a reference to an undefined variable
+        let n = 1 + r.below(3);
+        let args: Vec<Value> = (0..n).map(|k| match r.below(6) { 0 => json!(["\"\"", ""]), 1 => json!(["${nope}", ""]), _ => json!([format!("a{}{}", i, k), format!("a{}{}", i, k)]) }).collect();
+        json!({"out": if r.chance(3, 4) { json!(format!("o{}", r.below(2))) } else { Value::Null }, "args": args})
+    }).collect();
     json!({ "body": body, "calls": calls, "scoped": r.chance(1, 3), "preset": r.chance(1, 2) })
 }
 
@@ -75,14 +80,15 @@ fn run_inner(input: &Value) -> Option<Value> {
     let body = input["body"].as_array()?.clone();
     let calls = input["calls"].as_array()?.clone();
     let scoped = input["scoped"].as_bool().unwrap_or(false);
-    let mut lines = vec![if scoped { "fn <scope> f".to_string() } else { "fn f".to_string() }, "trace = set \"${trace} in:${1}\"".to_string()];
+    let mut lines = vec![if scoped { "fn <scope> f".to_string() } else { "fn f".to_string() }, "trace = set \"${trace} in:${1},${2},${3}\"".to_string()];
     c04::render(&body, &mut lines);
     lines.push("end".to_string());
     if input["preset"].as_bool().unwrap_or(false) {
         lines.push("o0 = set old".to_string());
     }
     for c in &calls {
-        let arg = c["arg"].as_str()?;
+        let arg: Vec<String> = c["args"].as_array()?.iter().map(|a| a[0].as_str().unwrap_or("").to_string()).collect();
+        let arg = arg.join(" ");
         match c["out"].as_str() {
             Some(o) => lines.push(format!("{} = f {}", o, arg)),
             None => lines.push(format!("f {}", arg)),
@@ -96,7 +102,7 @@ fn run_inner(input: &Value) -> Option<Value> {
         vars.insert("o0".to_string(), "old".to_string());
     }
     for c in &calls {
-        let arg = c["arg"].as_str()?.to_string();
+        let args: Vec<String> = c["args"].as_array()?.iter().map(|a| a[1].as_str().unwrap_or("").to_string()).collect();
         // the call instruction first clears its output variable (command result without value)
         let saved = vars.clone();
         if scoped {
@@ -105,9 +111,13 @@ fn run_inner(input: &Value) -> Option<Value> {
         if let Some(o) = c["out"].as_str() {
             vars.remove(o);
         }
-        vars.insert("1".to_string(), arg.clone());
+        for (k, a) in args.iter().enumerate() {
+            vars.insert((k + 1).to_string(), a.clone());
+        }
         let t = vars.get("trace").cloned().unwrap_or_default();
-        vars.insert("trace".to_string(), format!("{} in:{}", t, arg));
+        let g = |vars: &BTreeMap<String, String>, k: &str| vars.get(k).cloned().unwrap_or_default();
+        let tr = format!("{} in:{},{},{}", t, g(&vars, "1"), g(&vars, "2"), g(&vars, "3"));
+        vars.insert("trace".to_string(), tr);
         let rv = c04::interp_ret(&body, &mut vars, &mut steps);
         if scoped {
             // the caller's variables are exactly as before the call (plus the output variable, below)
@@ -133,6 +143,7 @@ fn run_inner(input: &Value) -> Option<Value> {
     }
     let mut context = Context::new();
     duckscriptsdk::load(&mut context.commands).ok()?;
+    context.commands.set(Box::new(c04::Probe {})).ok()?;
     match runner::run_script(&script, context, None) {
         Ok(ctx) => {
             let real: BTreeMap<String, String> = ctx.variables.iter().filter(|(k, _)| !k.starts_with('h')).map(|(k, v)| (k.clone(), v.clone())).collect();
